@@ -118,7 +118,7 @@ Qed.
 
 Definition walk_of (w : bytes) (s : step) : walk :=
   match s with
-  | SNext c p e st _ => WAt w c p st e
+  | SNext c p e st v => WAt w c p st e v
   | SPanic x => WPanic x
   | SFuel => WFuel
   end.
@@ -692,7 +692,7 @@ Qed.
 Theorem shadow_line c0 bin line w after pcf f b :
   tree_all unb c0 -> is_set s_no_binary_name c0 = false -> N.of_nat (length line) + 2 <= usize_max ->
   build_full f c0 = BOk b -> cline (build_self (with_bin c0 bin)) line pcf ->
-  exists curf pif, start_walk b (bin :: line ++ w :: after) (N.of_nat (S (length line))) = WAt w curf pif ValueDone false
+  exists curf pif evf, start_walk b (bin :: line ++ w :: after) (N.of_nat (S (length line))) = WAt w curf pif ValueDone false evf
                    /\ lvl_rel pcf curf.
 Proof.
   intros Hu Hnb Hlen Hb Hline.
@@ -702,7 +702,7 @@ Proof.
     destruct (with_bin_cases c0 bin) as [-> | ->]; [exact Hnb|]. destruct c0; exact Hnb. }
   rewrite (start_walk_run b bin line w after Hnb' Hlen).
   destruct (eng_line _ line pcf Hline b 1 false Hrel) as [curf [pif [evf [Hrun Hrelf]]]].
-  exists curf, pif. rewrite Hrun. split; [reflexivity|exact Hrelf].
+  exists curf, pif, evf. rewrite Hrun. split; [reflexivity|exact Hrelf].
 Qed.
 
 (** * END TO END *)
@@ -715,16 +715,19 @@ Theorem candidate_accepted_line tbl c0 bin line w after l cd pcf e :
   parse_top c0 (bin :: line ++ [cd_value cd]) = OErr e -> ~ unknown_kind (e_kind e).
 Proof.
   intros Hu Hnb Hlen Hline Hm Hin Hcc Hp Hk.
-  destruct (model_ok_inv tbl c0 _ _ l Hm) as [b [w' [cur [pi [st [esc [Hb [Hw Hc]]]]]]]].
+  destruct (model_ok_inv tbl c0 _ _ l Hm) as [b [w' [cur [pi [st [esc [vaf [Hb [Hw [_ Hc]]]]]]]]]].
   pose proof (root_rel _ c0 bin b Hu Hb) as Hrel.
   assert (Hnb' : is_set s_no_binary_name b = false).
   { rewrite <- (lvl_rel_is_set _ _ s_no_binary_name Hrel), build_self_nbn.
     destruct (with_bin_cases c0 bin) as [-> | ->]; [exact Hnb|]. destruct c0; exact Hnb. }
   rewrite (start_walk_run b bin line w after Hnb' Hlen) in Hw.
   destruct (eng_line _ line pcf Hline b 1 false Hrel) as [curf [pif [evf [Hrun Hrelf]]]].
-  rewrite Hrun in Hw. cbn [walk_of] in Hw. inversion Hw; subst w' cur pi st esc. clear Hw.
+  rewrite Hrun in Hw. cbn [walk_of] in Hw. inversion Hw; subst w' cur pi st esc vaf. clear Hw.
   assert (Hlf : lvl18 pcf).
   { clear - Hline. induction Hline; assumption. }
+  assert (Hcut : sub_cut curf evf = curf).
+  { unfold sub_cut. rewrite <- (lvl_rel_is_set pcf curf s_args_negate_subs Hrelf), (l_neg pcf Hlf). reflexivity. }
+  rewrite Hcut in Hc.
   rewrite (parse_top_unfold c0 bin _ Hnb) in Hp. unfold do_parse in Hp.
   destruct (negb (valid (with_bin c0 bin))); [discriminate|].
   match type of Hp with match ?g with _ => _ end = _ => destruct g as [s1|e1 s1|x] eqn:Eg end.
@@ -959,7 +962,7 @@ Theorem require_equals_refuted : exists tbl c0 bin line cd,
   (exists m, parse_top c0 (bin :: line) = OOk m) /\
   (* the engine awaits a value of an option that requires `=` ... *)
   (exists b cur a, build_full (build_fuel c0) c0 = BOk b /\
-     start_walk b (bin :: line ++ [[]]) (N.of_nat (S (length line))) = WAt [] cur 1 (Opt a 1) false /\ a_req_eq a = true) /\
+     start_walk b (bin :: line ++ [[]]) (N.of_nat (S (length line))) = WAt [] cur 1 (Opt a 1) false true /\ a_req_eq a = true) /\
   (* ... offers a value candidate ... *)
   (exists l, complete_model tbl c0 (bin :: line ++ [[]]) (N.of_nat (S (length line))) = COk l /\ In cd l) /\
   (* ... and the completed line is rejected: unknown argument *)
